@@ -1,5 +1,5 @@
 (* C10 — Size, Cost and Stats agree with what the cache holds and did. CacheProofs.v. Only `exact` + Print Assumptions. *)
-Require Import KV.Base KV.Gen.Consts KV.ConfigModel KV.CacheModel KV.ClassicProofs KV.SieveProofs KV.CacheProofs KV.TtlProofs KV.MutexAtomicity KV.StripedCounter.
+Require Import KV.Base KV.Gen.Consts KV.ConfigModel KV.CacheModel KV.ClassicProofs KV.SieveProofs KV.CacheProofs KV.TtlProofs KV.MutexAtomicity KV.StripedCounter KV.PtrModel KV.PtrProofs.
 Open Scope Z_scope.
 
 (* in every state: total size = number of resident items = table sizes; total cost = sum of item costs when tracked, else size; len(Keys) <= size *)
@@ -33,14 +33,16 @@ Theorem c10_structures_agree :
          (forall k : Z, In k (tabk s) -> shard_of k = Z.of_nat i) /\
          (if is_sieve s (policy c)
           then
-           l = prob s ++ main s /\
+           l = CacheModel.prob s ++ main s /\
            lst s = [] /\
-           lfu s = [] /\
-           pcap s + mcap s = cap s /\ (forall h : Z, hand s = Some h -> In h (map key (main s)))
+           CacheModel.lfu s = [] /\
+           pcap s + mcap s = cap s /\
+           (forall h : Z, CacheModel.hand s = Some h -> In h (map key (main s)))
           else
            l = lst s /\
-           prob s = [] /\
-           main s = [] /\ hand s = None /\ (policy c = policyLFU -> CP.LfuOK (lfu s) (tabk s))).
+           CacheModel.prob s = [] /\
+           main s = [] /\
+           CacheModel.hand s = None /\ (policy c = policyLFU -> CP.LfuOK (CacheModel.lfu s) (tabk s))).
 Proof. exact CacheProofs.c10_structures_agree. Qed.
 
 (* stats on: hits/misses = ghost counts of Get/GetWithTTL outcomes of the history, evictions = #capacity drops, expirations = #expired drops; stats off: all 0 *)
@@ -86,7 +88,7 @@ Theorem c10_sieve_counter_is_capacity_drops :
   forall e : env,
          e_pol e = policySieve ->
          forall (s : shard) (k v ex0 c : Z) (s' : shard) (cm : bool) (d : Z),
-         SInv s ->
+         SieveProofs.SInv s ->
          Quiet s ->
          0 <= c ->
          apply_sieve e s k v ex0 c = (s', cm, d) ->
@@ -210,6 +212,23 @@ Theorem c10_example :
          map nreason (flat_map nlog (shards ex_lru_fin)) = [0; 2; 2; 3].
 Proof. exact CacheProofs.ex_lru_state. Qed.
 
+(* pointer level: along every protocol-respecting sequence of SIEVE queue operations the two queues are doubly linked representations of the abstract (probation, main) lists, the size counters equal their lengths, tags mark exactly the members, the hand is nil or a main member *)
+Theorem c10_ptr_sieve_sequence :
+  forall (owner mcap : Z) (ops : list sv_op),
+         sv_ops_ok mcap ([], []) ops = true ->
+         let s := fold_left sv_p_step ops (pinit owner mcap) in
+         let st := fold_left (sv_abs_step mcap) ops ([], []) in
+         SInv s (fst st) (snd st) /\ perr s = false.
+Proof. exact sieve_sequence. Qed.
+
+(* pointer level: freqMap and itemFreq are exactly the ring's buckets and members along every operation sequence *)
+Theorem c10_ptr_lfu_ring :
+  forall ops : list LfuRing.lfu_op,
+         LfuRing.lfu_ops_ok [] ops = true ->
+         LfuRing.LInv (fold_left LfuRing.lfu_p_step ops lfu_init)
+           (fold_left LfuRing.lfu_abs_step ops []).
+Proof. exact LfuRing.lfu_ring_refines. Qed.
+
 Print Assumptions c10_size_cost.
 Print Assumptions c10_structures_agree.
 Print Assumptions c10_counters.
@@ -224,3 +243,5 @@ Print Assumptions c10_striped_aggregate_quiescent.
 Print Assumptions c10_load_store_variant_loses_updates.
 Print Assumptions c10_load_store_exact_without_sharing.
 Print Assumptions c10_example.
+Print Assumptions c10_ptr_sieve_sequence.
+Print Assumptions c10_ptr_lfu_ring.
